@@ -343,7 +343,8 @@ def gen_shuf(rnd):
     n, edges = rand_graph(rnd, 4, 10, dens=rnd.choice([0.3, 0.5, 0.7]))
     f = rnd.choice([0.0, 0.1, 0.25, 0.5, 1.0, 1.5, rnd.random()])
     if edges and rnd.random() < 0.35: f = near_fraction(rnd, len(edges), top=1.5)
-    return dict(kind='shuf', n=n, edges=edges, f=f, seed=rnd.random(), sticky=rnd.choice([0.0, 0.0, 0.8, 0.9]), limit1=rnd.random() < 0.3)
+    return dict(kind='shuf', n=n, edges=edges, f=f, seed=rnd.random(), sticky=rnd.choice([0.0, 0.0, 0.8, 0.9]), limit1=rnd.random() < 0.3,
+                labels=rnd.choice(['int', 'int', 'big', 'str']))
 
 
 def run_shuf(spec):
@@ -366,7 +367,13 @@ def run_shuf(spec):
     import epydemic.bbt as bbt
     bbt.rng = SRng()
     n = spec['n']
-    g = nx.Graph(); g.add_nodes_from(range(n)); g.add_edges_from([tuple(e) for e in spec['edges']])
+    # labels that are equal without being the same object (integers beyond the interpreter's small-int cache, strings built at run time):
+    # every mention of a node below makes a new object
+    kind = spec.get('labels', 'int')
+    lab = (lambda i: int(str(1000 + i))) if kind == 'big' else (lambda i: ''.join(['v', str(i)])) if kind == 'str' else (lambda i: i)
+    inv = {lab(i): i for i in range(n)}
+    g = nx.Graph(); g.add_nodes_from(lab(i) for i in range(n)); g.add_edges_from([(lab(a), lab(b)) for (a, b) in spec['edges']])
+    if kind != 'int': g = g.copy()
     proto = g.copy(); f = spec['f']
     swaps = []
 
@@ -392,7 +399,7 @@ def run_shuf(spec):
             def add_edges_from(es, **kw):
                 es = list(es)
                 if 'rm' in st_ and len(st_['rm']) == 2 and len(es) == 2:
-                    (a, b), (c, dd) = st_.pop('rm'); swaps.append((a, b, c, dd))
+                    (a, b), (c, dd) = st_.pop('rm'); swaps.append((inv[a], inv[b], inv[c], inv[dd]))
                 return ad(es, **kw)
             wg.remove_edges_from = remove_edges_from; wg.add_edges_from = add_edges_from
             return wg
@@ -402,19 +409,19 @@ def run_shuf(spec):
         signal.alarm(0)
         wg = d.network()
         M = proto.number_of_edges(); imax = int(M * f)
-        degs = [wg.degree(v) for v in range(n)]
-        es = sorted(tuple(sorted(e)) for e in wg.edges())
+        degs = [wg.degree(lab(v)) for v in range(n)]
+        es = sorted(tuple(sorted((inv[a], inv[b]))) for (a, b) in wg.edges())
         exp.append(f"FINAL guards=ok deg={degs} edges={es} nswaps={len(swaps)} imax={imax}".replace("'", ""))
-        orig = sorted(tuple(sorted(e)) for e in proto.edges())
+        orig = sorted(tuple(sorted((inv[a], inv[b]))) for (a, b) in proto.edges())
         if sorted(wg.nodes()) != sorted(proto.nodes()): viol.append("the working network lost or gained nodes")
         elif wg.number_of_edges() != M: viol.append(f"the working network has {wg.number_of_edges()} edges, the original {M}")
-        elif degs != [proto.degree(v) for v in range(n)]:
-            v = next(v for v in range(n) if degs[v] != proto.degree(v))
-            viol.append(f"f={f}: node {v} had degree {proto.degree(v)}, now {degs[v]}")
+        elif degs != [proto.degree(lab(v)) for v in range(n)]:
+            v = next(v for v in range(n) if degs[v] != proto.degree(lab(v)))
+            viol.append(f"f={f}: node {v} had degree {proto.degree(lab(v))}, now {degs[v]}")
         elif any(a == b for (a, b) in wg.edges()): viol.append(f"f={f}: self-loop {[e for e in wg.edges() if e[0] == e[1]][0]} introduced")
         elif len(set(orig) - set(es)) > 2 * imax: viol.append(f"f={f}, M={M}: {len(set(orig) - set(es))} original edges are gone, at most 2*floor(f*M) = {2 * imax} allowed")
         elif imax == 0 and es != orig: viol.append(f"f={f} (floor(f*M) = 0) but the network changed: {sorted(set(orig) ^ set(es))}")
-        elif sorted(tuple(sorted(e)) for e in g.edges()) != orig: viol.append("the prototype network was modified")
+        elif sorted(tuple(sorted((inv[a], inv[b]))) for (a, b) in g.edges()) != orig: viol.append("the prototype network was modified")
         elif wg is g: viol.append("the build worked on the prototype network itself")
     except TimeoutError:
         return None
@@ -426,7 +433,7 @@ def run_shuf(spec):
         viol.append(f"build raised {type(ex).__name__}: {ex}")
     finally:
         signal.alarm(0)
-    inp = [f"SHUF {n} {bits(f)} " + ' '.join(f"{a}-{b}" for a, b in proto.edges()) + " | " + ' '.join(f"{a},{b},{c},{dd}" for (a, b, c, dd) in swaps)]
+    inp = [f"SHUF {n} {bits(f)} " + ' '.join(f"{inv[a]}-{inv[b]}" for a, b in proto.edges()) + " | " + ' '.join(f"{a},{b},{c},{dd}" for (a, b, c, dd) in swaps)]
     info['M'] = proto.number_of_edges(); info['samples'] = len(swaps)
     return inp, exp, info, [('shuf', v) for v in viol[:1]]
 
